@@ -526,6 +526,18 @@ def rule_r5(chk, db):
             for v, tb in t["targets"]:
                 if str(v) == "0":
                     empty_edges.add((bi, v))
+    # `if body_len == 0 { return Ok(()) }`: the buffered length compared with the literal 0
+    for bi, si, st in body.stmts():
+        rv = st["rv"]
+        if rv["k"] == "bin" and rv["op"] in ("Eq", "Ne"):
+            cs_ = [flow.const_int_eval(body, o) for o in rv["ops"]]
+            if 0 not in cs_:
+                continue
+            other = rv["ops"][1] if cs_[0] == 0 else rv["ops"][0]
+            sl = flow.backward(body, other, at=bi)
+            if any(callee_def(t2).endswith("::len") for _, t2, _ in sl.calls) and any(callee_def(t2).endswith("store_all_unlimited") for _, t2, _ in sl.calls):
+                o_ = flow.outcomes_of_local(body, st["dst"]["l"])
+                empty_edges |= (o_.get("true") if rv["op"] == "Eq" else o_.get("false"))
     oks = [w["bi"] for w in flow.return_writes(body) if w["kind"] == "Ok" and
            any(callee_def(t2).endswith("store_all_unlimited") for _, t2, _ in flow.backward(body, w["rv"]["ops"][0]).calls)]
     if not oks:
